@@ -212,7 +212,7 @@ class Sym:
             f = e.func
             if isinstance(f, ast.Name) and f.id == "len" and len(e.args) == 1:
                 return Lin.of_term(("len", self.term(e.args[0])))
-            if isinstance(f, ast.Name) and f.id in ("int", "float") and len(e.args) == 1:
+            if isinstance(f, ast.Name) and f.id in ("int", "float", "bytes", "bytearray", "memoryview") and len(e.args) == 1 and not e.keywords:
                 return self.lin(e.args[0])
             if isinstance(f, ast.Attribute) and f.attr == "from_bytes" and isinstance(f.value, ast.Name) and f.value.id == "int" and e.args:
                 order, signed = "big", False
